@@ -8,188 +8,6 @@ verus! {
 use std::cmp;
 verus! {
 
-//@ item actors/miner/src/state.rs State
-
-// ---------------- spec ----------------
-/// ledger invariant of C03: "locked-funds total equals the sum of its vesting schedule", all totals non-negative
-pub open spec fn st_wf(s: State) -> bool {
-    &&& vf_nonneg(s.vesting_funds@)
-    &&& s.locked_funds@ == vf_sum(s.vesting_funds@)
-    &&& s.pre_commit_deposits@ >= 0
-    &&& s.initial_pledge@ >= 0
-    &&& s.fee_debt@ >= 0
-}
-/// the statement's solvency inequality for a miner (C01)
-pub open spec fn st_solvent(s: State, balance: int) -> bool {
-    balance >= s.pre_commit_deposits@ + s.locked_funds@ + s.initial_pledge@
-}
-/// frame: everything that is not one of the four money totals / the vesting table is untouched
-pub open spec fn st_rest_eq(a: State, b: State) -> bool {
-    &&& a.info == b.info
-    &&& a.pre_committed_sectors == b.pre_committed_sectors
-    &&& a.pre_committed_sectors_cleanup == b.pre_committed_sectors_cleanup
-    &&& a.allocated_sectors == b.allocated_sectors
-    &&& a.sectors == b.sectors
-    &&& a.proving_period_start == b.proving_period_start
-    &&& a.current_deadline == b.current_deadline
-    &&& a.deadlines == b.deadlines
-    &&& a.early_terminations == b.early_terminations
-    &&& a.deadline_cron_active == b.deadline_cron_active
-}
-pub open spec fn unlocked(s: State, balance: int) -> int {
-    balance - s.locked_funds@ - s.pre_commit_deposits@ - s.initial_pledge@
-}
-
-// ---------------- extracted ----------------
-//@ fn actors/miner/src/state.rs State::continue_deadline_cron
-    ensures
-        r == (self.pre_commit_deposits@ != 0 || self.initial_pledge@ != 0 || self.locked_funds@ != 0),
-//@ end
-
-//@ fn actors/miner/src/state.rs State::add_pre_commit_deposit
-    ensures
-        st_rest_eq(*old(self), *final(self)),
-        final(self).locked_funds == old(self).locked_funds,
-        final(self).vesting_funds == old(self).vesting_funds,
-        final(self).initial_pledge == old(self).initial_pledge,
-        final(self).fee_debt == old(self).fee_debt,
-        r.is_ok() <==> old(self).pre_commit_deposits@ + amount@ >= 0,
-        r.is_ok() ==> final(self).pre_commit_deposits@ == old(self).pre_commit_deposits@ + amount@,
-        r.is_err() ==> final(self).pre_commit_deposits == old(self).pre_commit_deposits,
-//@ end
-
-//@ fn actors/miner/src/state.rs State::add_initial_pledge
-    ensures
-        st_rest_eq(*old(self), *final(self)),
-        final(self).locked_funds == old(self).locked_funds,
-        final(self).vesting_funds == old(self).vesting_funds,
-        final(self).pre_commit_deposits == old(self).pre_commit_deposits,
-        final(self).fee_debt == old(self).fee_debt,
-        r.is_ok() <==> old(self).initial_pledge@ + amount@ >= 0,
-        r.is_ok() ==> final(self).initial_pledge@ == old(self).initial_pledge@ + amount@,
-        r.is_err() ==> final(self).initial_pledge == old(self).initial_pledge,
-//@ end
-
-//@ fn actors/miner/src/state.rs State::apply_penalty
-    ensures
-        st_rest_eq(*old(self), *final(self)),
-        final(self).locked_funds == old(self).locked_funds,
-        final(self).vesting_funds == old(self).vesting_funds,
-        final(self).pre_commit_deposits == old(self).pre_commit_deposits,
-        final(self).initial_pledge == old(self).initial_pledge,
-        r.is_ok() <==> penalty@ >= 0,                       // "penalties are never negative"
-        r.is_ok() ==> final(self).fee_debt@ == old(self).fee_debt@ + penalty@,
-        r.is_err() ==> final(self).fee_debt == old(self).fee_debt,
-//@ end
-
-//@ fn actors/miner/src/state.rs State::add_locked_funds
-    requires
-        st_wf(*old(self)),
-    ensures
-        st_rest_eq(*old(self), *final(self)),
-        final(self).pre_commit_deposits == old(self).pre_commit_deposits,
-        final(self).initial_pledge == old(self).initial_pledge,
-        final(self).fee_debt == old(self).fee_debt,
-        r.is_ok() ==> st_wf(*final(self))
-            && vesting_sum@ >= 0
-            // only what had already vested in the OLD table is released; the new sum is locked in full
-            && r->Ok_0@ == vf_sum_before(old(self).vesting_funds@, current_epoch as int)
-            && final(self).locked_funds@ == old(self).locked_funds@ - r->Ok_0@ + vesting_sum@,
-//@ end
-
-//@ fn actors/miner/src/state.rs State::unlock_vested_funds
-    requires
-        st_wf(*old(self)),
-    ensures
-        st_rest_eq(*old(self), *final(self)),
-        final(self).pre_commit_deposits == old(self).pre_commit_deposits,
-        final(self).initial_pledge == old(self).initial_pledge,
-        final(self).fee_debt == old(self).fee_debt,
-        r.is_ok() ==> st_wf(*final(self))
-            // exactly the entries whose vesting epoch has passed, nothing else
-            && r->Ok_0@ == vf_sum_before(old(self).vesting_funds@, current_epoch as int)
-            && r->Ok_0@ >= 0
-            && final(self).locked_funds@ == old(self).locked_funds@ - r->Ok_0@,
-//@ entry
-        proof { lemma_vf_bounds(old(self).vesting_funds@, current_epoch as int); }
-//@ end
-
-//@ fn actors/miner/src/state.rs State::unlock_vested_and_unvested_funds ret=res
-    requires
-        st_wf(*old(self)),
-        target@ >= 0,
-    ensures
-        st_rest_eq(*old(self), *final(self)),
-        final(self).pre_commit_deposits == old(self).pre_commit_deposits,
-        final(self).initial_pledge == old(self).initial_pledge,
-        final(self).fee_debt == old(self).fee_debt,
-        res.is_ok() ==> st_wf(*final(self)) && ({
-            let (unvested, total) = res->Ok_0;
-            &&& 0 <= unvested@ <= target@
-            &&& unvested@ <= total@
-            // anything beyond the requested amount had already vested
-            &&& total@ - unvested@ <= vf_sum_before(old(self).vesting_funds@, current_epoch as int)
-            &&& final(self).locked_funds@ == old(self).locked_funds@ - total@
-        }),
-//@ entry
-        proof { lemma_vf_bounds(old(self).vesting_funds@, current_epoch as int); }
-//@ end
-
-//@ fn actors/miner/src/state.rs State::get_unlocked_balance
-    ensures
-        r.is_ok() <==> unlocked(*self, actor_balance@) >= 0,
-        r.is_ok() ==> r->Ok_0@ == unlocked(*self, actor_balance@),
-//@ end
-
-//@ fn actors/miner/src/state.rs State::get_available_balance
-    ensures
-        r.is_ok() <==> unlocked(*self, actor_balance@) >= 0,
-        r.is_ok() ==> r->Ok_0@ == unlocked(*self, actor_balance@) - self.fee_debt@,
-//@ end
-
-//@ fn actors/miner/src/state.rs State::check_balance_invariants
-    ensures
-        // Ok  <==>  the solvency inequality of the statement and non-negativity of the four totals
-        r.is_ok() <==> (self.pre_commit_deposits@ >= 0 && self.locked_funds@ >= 0 && self.initial_pledge@ >= 0
-            && self.fee_debt@ >= 0 && st_solvent(*self, balance@)),
-//@ end
-
-//@ fn actors/miner/src/state.rs State::repay_partial_debt_in_priority_order ret=res
-    requires
-        st_wf(*old(self)),
-    ensures
-        st_rest_eq(*old(self), *final(self)),
-        final(self).pre_commit_deposits == old(self).pre_commit_deposits,
-        final(self).initial_pledge == old(self).initial_pledge,
-        res.is_ok() ==> st_wf(*final(self)) && ({
-            let (to_burn, total_unlocked) = res->Ok_0;
-            // every charged attoFIL is burnt now or remains debt
-            &&& old(self).fee_debt@ == to_burn@ + final(self).fee_debt@
-            &&& to_burn@ >= 0
-            &&& final(self).fee_debt@ >= 0
-            // burning to_burn keeps the miner solvent
-            &&& to_burn@ <= unlocked(*final(self), curr_balance@)
-            // priority: debt remains only if nothing unlocked is left
-            &&& (final(self).fee_debt@ > 0 ==> to_burn@ == unlocked(*final(self), curr_balance@))
-            &&& final(self).locked_funds@ == old(self).locked_funds@ - total_unlocked@
-            &&& total_unlocked@ >= 0
-        }),
-//@ entry
-        proof { lemma_vf_bounds(old(self).vesting_funds@, current_epoch as int); }
-//@ end
-
-//@ fn actors/miner/src/state.rs State::repay_debts
-    ensures
-        st_rest_eq(*old(self), *final(self)),
-        final(self).pre_commit_deposits == old(self).pre_commit_deposits,
-        final(self).initial_pledge == old(self).initial_pledge,
-        final(self).locked_funds == old(self).locked_funds,
-        final(self).vesting_funds == old(self).vesting_funds,
-        // the gate: succeeds iff unlocked funds cover the whole debt; then the debt is returned for burning and cleared
-        r.is_ok() <==> (unlocked(*old(self), curr_balance@) >= 0 && unlocked(*old(self), curr_balance@) >= old(self).fee_debt@),
-        r.is_ok() ==> r->Ok_0@ == old(self).fee_debt@ && final(self).fee_debt@ == 0,
-        r.is_err() ==> final(self).fee_debt == old(self).fee_debt,
-//@ end
-
+//@ include units/shared/miner_funds.inc
 } // verus!
 fn main() {}
